@@ -35,12 +35,14 @@ var vpC19Names = map[string]string{
 	"api.test.local": "127.1.2.3", "x.corp.example.org": "127.9.9.5", "example.com.evil.org": "127.9.9.6", "other.net": "127.1.2.77",
 	"example.net": "127.9.9.7", "notexample.net": "127.9.9.8", "x.y.corp.example.org": "127.9.9.9", "corp.example.org": "127.9.9.10",
 	"v6.example.com": "::1",
+	"intranet": "127.9.9.11", "localhost": "127.9.9.12", "com": "127.9.9.13", "example": "127.9.9.14",
 }
 
 var vpC19Dests = []string{
 	"127.1.2.3", "127.1.2.4", "127.1.2.127", "127.1.2.128", "127.1.3.1", "127.2.0.1", "127.0.0.1", "127.9.9.2", "::1", "::ffff:127.1.2.3", "::ffff:127.2.0.1", "10.1.2.3",
 	"example.com", "EXAMPLE.COM", "a.example.com", "A.Example.Com", "a.b.example.com", "evilexample.com", "api.test.local", "x.corp.example.org",
 	"example.com.evil.org", "other.net", "example.net", "notexample.net", "x.y.corp.example.org", "corp.example.org", "v6.example.com", "nonexistent.invalid",
+	"intranet", "localhost", "com", "example", "a.example.com.", ".example.com", "example.com.",
 }
 
 var (
@@ -85,11 +87,13 @@ func vpC19DomainPermitted(name string, pats []string) bool {
 func vpC19Permitted(dest string, nets []*net.IPNet, pats []string) (permitted bool, resolves bool) {
 	ip := net.ParseIP(dest)
 	if ip == nil {
+		// a fully qualified spelling (trailing dot) resolves like the name without it
+		key := strings.TrimSuffix(strings.ToLower(dest), ".")
 		if vpC19DomainPermitted(dest, pats) {
-			_, ok := vpC19Names[strings.ToLower(dest)]
+			_, ok := vpC19Names[key]
 			return true, ok
 		}
-		s, ok := vpC19Names[strings.ToLower(dest)]
+		s, ok := vpC19Names[key]
 		if !ok {
 			return false, false
 		}
@@ -140,13 +144,19 @@ func TestVP_C19_Handler(t *testing.T) {
 		// reference set of allowed networks: a network is permitted from an add until the next remove
 		type ent struct {
 			n       *net.IPNet
-			cnt     int // 1 while the network is present (set semantics: present or absent)
+			cnt     int // copies present (configured duplicates count; a dynamic add never creates a second copy)
 			adds    int
 			removed bool // removed after having been added at least twice
 		}
 		ref := map[string]*ent{}
 		for _, n := range nets {
-			ref[n.String()] = &ent{n, 1, 1, false}
+			// two spellings of one network (10.0.0.0/8 and ::ffff:10.0.0.0/104) are two
+			// configured copies of the same entry; a removal takes one copy away
+			if e, ok := ref[n.String()]; ok {
+				e.cnt++
+			} else {
+				ref[n.String()] = &ent{n, 1, 1, false}
+			}
 		}
 		current := func() []*net.IPNet {
 			var out []*net.IPNet
@@ -165,7 +175,10 @@ func TestVP_C19_Handler(t *testing.T) {
 				_, n, _ := net.ParseCIDR(s)
 				h.AddAllowedRoute(n)
 				if e, ok := ref[n.String()]; ok {
-					e.cnt, e.adds = 1, e.adds+1
+					if e.cnt == 0 {
+						e.cnt = 1
+					}
+					e.adds++
 				} else {
 					ref[n.String()] = &ent{n, 1, 1, false}
 				}
@@ -176,7 +189,7 @@ func TestVP_C19_Handler(t *testing.T) {
 				_, n, _ := net.ParseCIDR(s)
 				got := h.RemoveAllowedRoute(n)
 				if e, ok := ref[n.String()]; ok && e.cnt > 0 {
-					e.cnt = 0
+					e.cnt--
 					e.removed = e.adds >= 2
 				}
 				ops = append(ops, fmt.Sprintf("remove(%s)=%v", s, got))
